@@ -181,7 +181,7 @@ def corpus_case(ln):
     return c
 
 
-def run_sharded(exe, lines, mode, tag, nshard):
+def run_sharded(exe, lines, mode, tag, nshard, timeout=3000, on_fail=None):
     """run an executable over the case lines in nshard parallel shards (order preserved)."""
     bdir = os.path.join(vlib.BUILD, "C06")
     os.makedirs(bdir, exist_ok=True)
@@ -191,9 +191,11 @@ def run_sharded(exe, lines, mode, tag, nshard):
         path = os.path.join(bdir, "in_%s_%d_%d.txt" % (tag, os.getpid(), i))
         open(path, "w").write("\n".join(shards[i]) + "\n")
         cmd = "ulimit -s unlimited 2>/dev/null; exec '%s' '%s' %s" % (exe, path, mode or "")
-        rc, out, err = vlib.sh2(["sh", "-c", cmd], timeout=3000)
+        rc, out, err = vlib.sh2(["sh", "-c", cmd], timeout=timeout)
         os.remove(path)
         res = out.splitlines()
+        if (rc != 0 or len(res) != len(shards[i])) and on_fail is not None:
+            return [on_fail] * len(shards[i])
         if rc != 0 or len(res) != len(shards[i]):
             raise RuntimeError("%s failed rc=%s (%d of %d lines)\n%s" % (exe, rc, len(res), len(shards[i]), err[-2000:]))
         return res
@@ -228,7 +230,7 @@ def run(ctx):
         "std: (&mut reader).take(n).read_to_end(vec) appends exactly the next min(n, remaining) bytes and retries Interrupted; the sizes of the buffers it offers the reader are folded into the (universally quantified) read schedule",
         "a reader never returns more bytes than the buffer offered and returns Ok(0) only at end of stream; I/O errors other than Interrupted are outside the property (the iterator returns them)",
         "read schedules are finite lists followed by maximal reads (a terminating run consumes finitely many events)",
-        "usize is 64 bits; polynomial of degree >= 8 (random_poly yields degree 53); chunk_size >= 1",
+        "usize is 64 bits; chunk_size >= 1; polynomial: the model covers every degree >= 8 (u64 truncation explicit); degree < 8 and the zero polynomial are outside the model and must be rejected by the code (checked on the real chunker with a timeout)",
         "theorem hypotheses params_ok: avg a power of two, min <= avg <= max, 64 <= min, BUF_SIZE-1 <= min (the last two are forced by the proof; see findings)",
         "size_hint only sizes the allocation (modelled, shown irrelevant)",
     ]
@@ -246,7 +248,7 @@ def run(ctx):
     BUF = meta["consts"]["BUF_SIZE"] if meta else 4096
     PRE = meta["prefill"] if meta else 64
     thorough = ctx.thorough()
-    maxlen = 48 * 1024 if thorough else 20 * 1024
+    maxlen = 48 * 1024 if thorough else 12 * 1024
 
     # ---------------- parameters
     polys = [DEFAULT_POLY] + [random_poly(rng) for _ in range(4 if thorough else 2)]
@@ -260,7 +262,13 @@ def run(ctx):
             (1, 1, 1), (2, 1, 8), (256, 63, 256), (256, 64, 300), (128, 65, 5000), (4096, 2048, 8192), (64, 0, 128),
             (4096, 4095, 8192), (8192, 4095, 8192)]
     stream_kinds = ["random", "random", "dense", "dense", "zeros", "ff", "periodic", "sparse"]
-    ngroups = 450 if thorough else 110
+    ngroups = 450 if thorough else 80
+    if not r["ok"] and not ctx.replay:
+        # an obligation no longer checks: widen the search for a concrete failing input
+        # (streams well beyond any plausible read-buffer size, more groups)
+        ngroups = max(ngroups, 120)
+        maxlen = max(maxlen, 200 * 1024)
+        good = good + [(8192, 4096, 16384)] * 6
     cases = []      # dicts: line, group key, params, data, kind
     rabs = {}
     def rab_for(poly):
@@ -298,6 +306,8 @@ def run(ctx):
         data = gen_stream(rng, sk_, n, rab_for(poly), avg, max(mn, 1), mx)
         kinds = rng.sample(SCHED_KINDS, nsch)
         if "full" not in kinds and rng.random() < 0.5: kinds[0] = "full"
+        if not any(k in ("one_int", "mixed", "buf") for k in kinds):   # a short read followed by Interrupted
+            kinds[-1] = rng.choice(["one_int", "mixed", "buf"])
         for ki, sk in enumerate(kinds):
             cases.append({"line": rline(poly, avg, mn, mx, rng.choice([0, n, 10 ** 9, max(n - 1, 0), n // 2]), gen_sched(rng, sk, n), data, ki == 0),
                           "group": "R%d" % g, "rabin": (poly, avg, mn, mx), "data": data, "sk": sk, "stream": sk_})
@@ -306,12 +316,21 @@ def run(ctx):
     for a in grid:
         for mi in [0] + grid:
             for ma in grid:
-                if rng.random() < (1.0 if thorough else 0.06):
+                if rng.random() < (1.0 if thorough else 0.03):
                     cases.append({"line": "P %d %d %d" % (a, mi, ma), "group": "P", "accept": (a, mi, ma)})
     for a in [4096, 8192, 65536, 2 ** 20, 2 ** 33]:       # around the acceptance boundaries
         for mi in [0, 63, 64, BUF - 2, BUF - 1, BUF, BUF + 1, a - 1, a, a + 1]:
             for ma in [a - 1, a, a + 1, 2 * a, 2 ** 40]:
                 cases.append({"line": "P %d %d %d" % (a, mi, ma), "group": "P", "accept": (a, mi, ma)})
+    # stored polynomials the rolling hash cannot handle (zero: table computation never ends; degree < 8:
+    # negative shift; degree > 56: u64 truncation).  One process per case with a short timeout.
+    bad_polys = [0, 1, 0x83, 0xff] + [(1 << d) | rng.getrandbits(d) | 1 for d in (57, 58, 60, 63)] + [random_poly(rng, 57), random_poly(rng, 63)]
+    bad_cases = []
+    if not ctx.replay:
+        bdata = gen_stream(rng, "random", 9000, None, 0, 0, 0)
+        for bp in bad_polys:
+            bad_cases.append({"line": rline(bp, 4096, 4096, 8192, 0, [], bdata, False), "group": "B%x" % bp,
+                              "rabin": (bp, 4096, 4096, 8192), "data": bdata, "sk": "full", "stream": "random", "badpoly": True})
     lines = [c["line"] for c in cases]
     nshard = min(vlib.NCPU, 16)
     impl_out = run_sharded(impl, lines, None, "impl", 4)
@@ -322,8 +341,21 @@ def run(ctx):
         model_out = run_sharded(model, lines, "debug", "model", nshard)
         model_rel_out = dict(zip(rel_idx, run_sharded(model, [lines[i] for i in rel_idx], "release", "modelrel", nshard)))
 
+    if bad_cases:
+        bl = [c["line"] for c in bad_cases]
+        nb = len(bl)
+        cases += bad_cases; lines += bl
+        impl_out += run_sharded(impl, bl, None, "implbad", nb, timeout=25, on_fail="hang-or-crash")
+        for j, x in enumerate(run_sharded(impl_rel, bl, None, "implrelbad", nb, timeout=25, on_fail="hang-or-crash")):
+            impl_rel_out[len(cases) - nb + j] = x
+        if model:
+            model_out += run_sharded(model, bl, "debug", "modelbad", nb, timeout=120, on_fail="model-timeout")
+            for j, x in enumerate(run_sharded(model, bl, "release", "modelrelbad", nb, timeout=120, on_fail="model-timeout")):
+                model_rel_out[len(cases) - nb + j] = x
+
     # ---------------- compare + oracle
     mism, viol = [], []
+    fpq = []        # fingerprint queries: (case, chunk start, L, kind, window bytes)
     hist = {}
     def bump(k, n=1): hist[k] = hist.get(k, 0) + n
     groups = {}
@@ -378,6 +410,11 @@ def run(ctx):
             sig = None
             if mn < PRE or mn < BUF - 1:
                 sig = "rabin-min-below-window-or-buffer"
+            deg = poly.bit_length() - 1
+            if deg < 8 or deg > 56:
+                sig = "poly-degree-out-of-range"
+            if res == "hang-or-crash":
+                viol.append(("chunk iterator hangs or crashes on an accepted (stored) polynomial of degree %d" % deg, c, res, bld, sig)); continue
             if res.startswith("panic"):
                 viol.append(("accepted Rabin parameters make the chunk iterator panic (%s)" % res, c, res, bld, sig)); continue
             if not res.startswith("ok"):
@@ -391,6 +428,19 @@ def run(ctx):
                 viol.append(("chunk boundaries differ from the declarative specification `cuts`", c, res + " vs cuts " + str(cuts[:20]), bld, None))
             groups.setdefault(key, set()).add(" ".join(map(str, lens)))
             if len(lens) >= 2: nontriv.add(c["group"])
+            if bld == "debug" and mn >= 64 and (c.get("badpoly") or (c["line"].endswith("c1") and len(fpq) < (4000 if thorough else 500))):
+                # cut points vs. the Rabin fingerprint (extracted fp_direct): every boundary that is neither
+                # at max nor the end of the stream, and the position just before it
+                d, off = c["data"], 0
+                def codewin(off, L):
+                    if L >= mn + 64: return d[off + L - 64:off + L]
+                    return (b"\0" + d[off + mn - 64:off + mn - 1] + d[off + mn:off + L])[-64:]
+                for l in lens[:-1]:
+                    if l < mx:
+                        fpq.append((c, off, l, "cut", codewin(off, l)))
+                        if l < mn + 64: fpq.append((c, off, l, "last64", d[off + l - 64:off + l]))
+                        if l - 1 >= mn: fpq.append((c, off, l - 1, "nocut", codewin(off, l - 1)))
+                    off += l
             if bld == "debug":
                 bump("stream_" + c.get("stream", "?")); bump("sched_" + c.get("sk", "?"))
                 bump("chunks_%s" % ("0" if not lens else "1" if len(lens) == 1 else "2-9" if len(lens) < 10 else ">=10"))
@@ -403,12 +453,34 @@ def run(ctx):
         if len(s) > 1:
             cs = [c for c in cases if c["group"] == g]
             viol.append(("chunk list depends on how the reader fragments its reads", cs[0], " | ".join(sorted(s))[:300], bld, None))
+    # cut points are the zeros of the Rabin fingerprint of the chunker's window (extracted fp_direct)
+    fp_stats = {"cut": 0, "nocut": 0, "last64": 0, "last64_differs": 0}
+    if model and fpq:
+        ql = ["D %x %s" % (q[0]["rabin"][0], q[4].hex()) for q in fpq]
+        qo = run_sharded(model, ql, "debug", "fp", nshard)
+        for q, x in zip(fpq, qo):
+            c, off, L, kind, w = q
+            poly, avg, mn, mx = c["rabin"]
+            deg = poly.bit_length() - 1
+            v = int(x.split()[1]) & (avg - 1) if x.startswith("ok") else None
+            fp_stats[kind] += 1
+            psig = "poly-degree-out-of-range" if (deg < 8 or deg > 56) else None
+            if kind == "cut" and v != 0:
+                viol.append(("a chunk ends where the Rabin fingerprint (modulo the repository polynomial) of the chunker's window has non-zero low bits",
+                             c, "chunk at offset %d length %d" % (off, L), "debug", psig))
+            elif kind == "nocut" and v == 0:
+                viol.append(("the chunker passes a position where the Rabin fingerprint of its window has zero low bits",
+                             c, "chunk at offset %d, position %d" % (off, L), "debug", psig))
+            elif kind == "last64" and v != 0 and psig is None:
+                fp_stats["last64_differs"] += 1
+                viol.append(("a chunk ends within 64 bytes after min where the fingerprint of the MOST RECENT 64 bytes has non-zero low bits: the chunker's window there is 0 :: s[min-64..min-1) ++ s[min..L), it omits the byte s[min-1]",
+                             c, "chunk at offset %d length %d (min %d)" % (off, L, mn), "debug", "window-omits-byte-before-min"))
     # window fingerprint validation (rolling hash vs direct polynomial reduction), extracted model only
     nwin = 0
     win_bad = []
     if model:
         wl = []
-        for _ in range(400 if thorough else 60):
+        for _ in range(400 if thorough else 30):
             poly = rng.choice(polys + odd_polys)
             avg, mn, mx = 4096, 4096, 8192
             n = rng.randint(mn, mn + 400)
@@ -423,13 +495,14 @@ def run(ctx):
     cov.update({
         "evaluations": len(cases) + nwin,
         "distinct_nontrivial": len(nontriv),
-        "rule": "cases = (polynomial: restic default, random irreducible degree 53, odd degrees 8..56) x (avg,min,max: valid and accepted-but-tiny) or fixed size x stream (random, constant, periodic, sparse, boundary-dense built to cut at min, min+1.., min+64, max-1, max) of length 0..%d around min/max multiples x 3 read schedules per stream (maximal, all 1-byte, 1-byte with Interrupted, small, around BUF_SIZE, mixed, Interrupted bursts); non-trivial = a (parameters, stream) group that yields at least two chunks; distinct by group" % maxlen,
+        "rule": "cases = (polynomial: restic default, random irreducible degree 53, odd degrees 8..56; stored polynomials 0, degree < 8 and degree 57..63 in a separate batch) x (avg,min,max: valid and accepted-but-tiny) or fixed size x stream (random, constant, periodic, sparse, boundary-dense built to cut at min, min+1.., min+64, max-1, max) of length 0..%d around min/max multiples x 3 read schedules per stream (maximal, all 1-byte, 1-byte with Interrupted, small, around BUF_SIZE, mixed, Interrupted bursts); non-trivial = a (parameters, stream) group that yields at least two chunks; distinct by group" % maxlen,
         "samples": samples, "distribution": hist,
         "traces_validated_against_impl": len(cases) + len(rel_idx),
         "release_build_cases": len(rel_idx),
         "disagreements_checked": len(mism) + len(viol) + len(win_bad),
         "model_impl_mismatches": len(mism), "oracle_violations": len(viol),
         "first_mismatches": [{"case": m[0][:300], "impl": m[1][:200], "model": m[2][:200], "build": m[3]} for m in mism[:5]],
+        "cut_point_fingerprint_checks": fp_stats,
         "window_fingerprint_cases": nwin, "window_fingerprint_mismatches": len(win_bad),
         "extracted_facts": meta,
     })
